@@ -22,6 +22,7 @@ import numpy as np
 
 from . import boson
 
+MAX_COMPARE_PHOTONS = 9      # largest permanent evaluated in a shadow comparison
 _wire = itertools.count()
 
 STATS: Counter = Counter()
@@ -333,6 +334,11 @@ def compare(c, rng=None, max_pairs: int = 40, max_vis_photons: int = 2, tol: flo
         nmax = max_vis_photons
     if k <= 3 and hph <= 2 and nmax >= 2:
         nmax = 3
+    if hph > MAX_COMPARE_PHOTONS:
+        # a permanent of that size would take minutes: frame conditions only, counted (never judged)
+        STATS["cmp_skipped_too_many_herald_photons"] += 1
+        return "compared", problems
+    nmax = min(nmax, MAX_COMPARE_PHOTONS - hph)
     n_amp = 0
     for nph in range(0, nmax + 1):
         basis = boson.fock(k, nph)
